@@ -28,7 +28,7 @@ import (
 )
 
 func main() {
-	vh.Main(vh.Commands{"trace": c13Trace, "replay": c13Replay})
+	vh.Main(vh.Commands{"trace": c13Trace, "replay": c13Replay, "accum": c13Accum, "acctrace": c13AccTrace})
 }
 
 type M = vh.M
@@ -136,6 +136,12 @@ var (
 	uDate5 = []string{"2022-03-01 12:00:00 +0200", "2022-03-01 05:00:00 -0500", "2022-03-01 10:00:00 +0000",
 		"2022-03-01 10:00:00 -0000", "2022-03-01 04:59:59 -0500", "2022-03-01 15:30:00 +0530", "2022-03-02 00:00:00 +1400",
 		"2022-02-28 23:00:00 -1100", "2022-03-01 11:30:00 +0100", "2022-03-01 03:00:00 -0700", "2022-03-01 10:00:01 +0000"}
+	// plain text that merely BEGINS like a weekday / month name or abbreviation, and ordinary words: text to
+	// every mode (Sorting.tla LookAlike)
+	uLook = []string{"monitoring", "friendly-bot", "sunrise", "marketing", "decoder", "Thu.", "Sept.", "Mondays", "augur",
+		"mayhem", "satellite", "Weds", "junior", "octopus", "wedding", "tuesdays", "novel", "mon.", "Septembers", "FRIDAYS",
+		"Sunny", "febrile", "aprons", "Julia", "janitor", "thursdays-x", "SATURN", "wednesdays", "marches", "Tue-1x"}
+	uPlain = []string{"api", "web", "gateway", "cache", "db", "proxy", "zeta", "Worker"}
 	uUnk = []string{"inf", "nan", "0x10", "1e400", "1_0", "NaN", "2023-02-30", "13/01/2024", "1e100", "-Inf", "0x1p4",
 		"Infinity", "2e400", "2024-1-2", "Jan 2, 2024"}
 )
@@ -175,6 +181,13 @@ func corePools() []poolSpec {
 		{"num-week", []string{"3", "mon", "1", "tue", "20"}},
 		{"unk", []string{"inf", "1", "nan", "0x10", "1e400", "2e400", "5"}},
 		{"num-dotted", []string{"1.20", "1.3", "10", "2", "3.15"}},
+		// look-alikes of weekday / month names among ordinary words (text), and next to real names (mixed)
+		{"look-week", []string{"monitoring", "friendly-bot", "api", "sunrise"}},
+		{"look-month", []string{"augur", "marketing", "decoder", "web"}},
+		{"look-forms", []string{"Thu.", "Sept.", "Mondays", "Weds", "zeta", "mon.", "FRIDAYS"}},
+		{"look-both", []string{"monitoring", "marketing", "friendly-bot", "decoder", "sunrise", "junior", "cache"}},
+		{"look-real-week", []string{"mon", "monitoring", "fri", "friendly-bot", "Thu."}},
+		{"look-real-month", []string{"dec", "decoder", "mar", "marketing", "api"}},
 		// every name of the calendar tables, once in lower case and once capitalised / upper case
 		{"week-all", weekAll(func(s string) string { return s })},
 		{"week-all-caps", weekAll(func(s string) string { return strings.ToUpper(s[:1]) + s[1:] })},
@@ -226,14 +239,16 @@ func randomPools(r *rand.Rand, n int, big int) []poolSpec {
 		l string
 		u []string
 	}{{"num", uNum}, {"text", uText}, {"week", uWeek}, {"month", uMonth}, {"date1", uDate1}, {"date2", uDate2}, {"date3", uDate3},
-		{"date4", uDate4}, {"date5", uDate5}}
+		{"date4", uDate4}, {"date5", uDate5},
+		{"look", union(uLook, uPlain)}, {"look", union(uLook, uPlain)}}
 	mixes := []struct {
 		l string
 		u []string
 	}{{"num+text", union(uNum, uText)}, {"week+text", union(uWeek, uText)}, {"week+month", union(uWeek, uMonth)},
 		{"num+week+month", union(uNum, uWeek, uMonth)}, {"dates", union(uDate1, uDate2, uDate3)},
 		{"date1+text", union(uDate1, uText)}, {"all", union(uNum, uText, uWeek, uMonth, uDate1, uDate3)},
-		{"num+unk", union(uNum, uUnk)}, {"text+unk", union(uText, uUnk)}, {"date4+text", union(uDate4, uText)}}
+		{"num+unk", union(uNum, uUnk)}, {"text+unk", union(uText, uUnk)}, {"date4+text", union(uDate4, uText)},
+		{"week+look", union(uWeek, uLook, uPlain)}, {"month+look", union(uMonth, uLook)}, {"num+look", union(uNum, uLook, uPlain)}}
 	var out []poolSpec
 	for i := 0; i < n; i++ {
 		var names []string
